@@ -454,7 +454,11 @@ def align_variable_names_with_convention(
             for node in parsing.iter_funcdefs(partial_tree):
                 name = node.name
                 # Don't rename magic members, don't rename if there is inheritance.
-                if partial_tree.bases or parsing.is_magic_method(node):
+                if (
+                    partial_tree.bases
+                    or parsing.is_magic_method(node)
+                    or f"{partial_tree.name}.{name}" in preserve
+                ):
                     renamings[node] = {name}
                 funcdefs.append(node)
                 substitute = style.rename_variable(
@@ -466,7 +470,11 @@ def align_variable_names_with_convention(
             for node in parsing.iter_assignments(partial_tree):
                 name = node.id
                 # Don't rename magic members, don't rename if there is inheritance.
-                if partial_tree.bases or (name.startswith("__") and name.endswith("__")):
+                if (
+                    partial_tree.bases
+                    or (name.startswith("__") and name.endswith("__"))
+                    or f"{partial_tree.name}.{name}" in preserve
+                ):
                     renamings[node] = {name}
                 substitute = style.rename_variable(
                     name, private=parsing.is_private(name), static=False
